@@ -26,6 +26,7 @@ RULE += '; the class under test may be a derived class that inherits all generat
 RULE += '; enumerated: a generic class forwarding its parameter to another generic State x every specialisation x boxes of every specialisation'
 RULE += '; protocol conformance may differ between instances of one class; a derived class may re-declare the first attribute'
 RULE += "; parametrised aliases whose parameter is named like the class's type parameter (enumerated); MISSING inside Any-typed containers (enumerated)"
+RULE += '; two-member unions with None written first (enumerated)'
 LEVEL_TEXT = (
     "Differential testing against an independent three-valued conformance relation over the harness's own term AST: "
     "construction must succeed iff every supplied-or-defaulted value conforms, and every stored attribute must be the "
@@ -469,6 +470,17 @@ def enumerate_cases(tier):
                     v = TT.V("tuple", items=[b, TT.V("str", x="s")])
                 yield {"cls": cls, "args": {"a0": v}, "broken_depth": 1}
     yield from _alias_namesake_cases()
+    # two-member unions with None written FIRST (`None | int`, `Union[None, Sequence[str]]`), bare and inside containers
+    none = TT.T("none")
+    for leaf in (TT.T("int"), TT.T("str"), TT.T("seq", of=TT.T("str")), TT.T("bool")):
+        for form in ("pipe", "typing"):
+            u = TT.T("union", alts=[none, leaf], form=form)
+            for t in (u, TT.T("seq", of=u), TT.T("alias", of=u)):
+                cls = {"generic": False, "targ": None, "attrs": [{"name": "a0", "term": t, "default": None}]}
+                for v in VALUE_POOL:
+                    if v["v"] == "missing":
+                        continue
+                    yield {"cls": cls, "args": {"a0": TT.V("list", items=[v, TT.V("none")]) if t["t"] == "seq" else v}, "broken_depth": 1}
     # an attribute that admits Missing, has no class-level default and is omitted / given MISSING: stored as MISSING and readable
     for t in (TT.T("union", alts=[TT.T("int"), TT.T("missing")]), TT.T("missing"), TT.T("union", alts=[TT.T("missing"), TT.T("seq", of=TT.T("str"))]), TT.T("any")):
         for given in (TT.V("missing"), None):
